@@ -64,6 +64,21 @@ func (f *foreignEmbTransport) TypeId() int32 { return f.t }
 func (f *foreignEmbProtocol) Error() string  { return f.s }
 func (f *foreignEmbProtocol) TypeId() int32  { return f.t }
 
+// uncmpErr: an error whose dynamic type is not comparable (like go/scanner.ErrorList); == on two of them panics
+type uncmpErr []string
+
+func (u uncmpErr) Error() string { return u[0] }
+
+// sameErr is == on error values that does not panic on uncomparable dynamic types (same backing array = same value)
+func sameErr(a, b error) bool {
+	ua, oka := a.(uncmpErr)
+	ub, okb := b.(uncmpErr)
+	if oka || okb {
+		return oka && okb && len(ua) == len(ub) && &ua[0] == &ub[0]
+	}
+	return a == b
+}
+
 func descJSON(d *ErrDesc) string {
 	if d == nil || d.Kind == "none" {
 		return `{"uid":-1,"kind":"none"}`
@@ -85,6 +100,8 @@ func buildErr(d *ErrDesc, memo map[int]error) error {
 	switch d.Kind {
 	case "plain":
 		e = errors.New(d.Text)
+	case "uncmp":
+		e = uncmpErr{d.Text}
 	case "foreign":
 		switch d.Embed {
 		case "app":
@@ -149,13 +166,13 @@ func runExcCase(raw json.RawMessage, w *TraceWriter) {
 	case "wrap":
 		in := buildErr(c.In, memo)
 		out := thrift.NewProtocolExceptionWithErr(in)
-		same := error(out) == in
+		same := sameErr(out, in)
 		iscause := true
 		if c.In.Cause != nil && c.In.Cause.Kind != "none" {
 			iscause = errors.Is(out, buildErr(c.In.Cause, memo))
 		}
 		w.Ev("exc_wrap", "in", Raw(descJSON(c.In)), "out", Raw(obsJSON(out)), "same", same,
-			"unwrapsame", errors.Unwrap(out) == in, "isin", errors.Is(out, in), "iscause", iscause)
+			"unwrapsame", sameErr(errors.Unwrap(out), in), "isin", errors.Is(out, in), "iscause", iscause)
 	case "is":
 		x := buildErr(c.X, memo)
 		t := buildErr(c.T, memo)
@@ -187,7 +204,7 @@ func genExcCases(c *Ctx) []json.RawMessage {
 		uid++
 		d := &ErrDesc{UID: uid, Kind: kind, Tid: tid, Cause: &ErrDesc{UID: -1, Kind: "none"}}
 		switch kind {
-		case "plain":
+		case "plain", "uncmp":
 			d.Tid, d.Text = 0, msg
 		case "foreign":
 			d.Text = msg
@@ -198,7 +215,7 @@ func genExcCases(c *Ctx) []json.RawMessage {
 	}
 	// the wrapped form as the library builds it: tid 0, msg = cause's Error() text
 	textOf := func(d *ErrDesc) string {
-		if d.Kind == "plain" || d.Kind == "foreign" || d.Kind == "fmtwrap" {
+		if d.Kind == "plain" || d.Kind == "foreign" || d.Kind == "fmtwrap" || d.Kind == "uncmp" {
 			return d.Text
 		}
 		if d.Msg != "" {
@@ -215,10 +232,10 @@ func genExcCases(c *Ctx) []json.RawMessage {
 		return &ErrDesc{UID: uid, Kind: "fmtwrap", Text: "ctx: " + textOf(cause), Cause: cause}
 	}
 	var all []*ErrDesc
-	for _, k := range []string{"plain", "foreign", "application", "transport", "protocol"} {
+	for _, k := range []string{"plain", "uncmp", "foreign", "application", "transport", "protocol"} {
 		for _, t := range tids {
 			for _, m := range msgs {
-				if k == "plain" && t != 0 {
+				if (k == "plain" || k == "uncmp") && t != 0 {
 					continue
 				}
 				all = append(all, mk(k, t, m))
@@ -287,6 +304,17 @@ func genExcCases(c *Ctx) []json.RawMessage {
 	for _, a := range small {
 		for _, b := range small {
 			out = append(out, mustJSON(ExcCase{Fn: "is", X: a, T: b}))
+		}
+	}
+	// values of uncomparable types on both sides of errors.Is: bare, wrapped by the library, wrapped by the standard
+	// library, as the same value and as two values of the same type (== on such a pair panics: nothing may do that)
+	for _, m := range msgs[:4] {
+		u1, u2 := mk("uncmp", 0, m), mk("uncmp", 0, m)
+		for _, x := range []*ErrDesc{u1, wrap(u1), fmtwrap(u1), wrap(fmtwrap(u1)), fmtwrap(wrap(u1))} {
+			for _, t := range []*ErrDesc{u1, u2, mk("plain", 0, m), mk("protocol", 0, m), mk("application", 0, m), wrap(u2)} {
+				out = append(out, mustJSON(ExcCase{Fn: "is", X: x, T: t}))
+				out = append(out, mustJSON(ExcCase{Fn: "is", X: t, T: x}))
+			}
 		}
 	}
 	for _, t := range tids {
